@@ -135,6 +135,13 @@ func (ft *FuncTr) sortSlice(st *State, at *Term, in ssa.Instruction, c *ssa.Call
 		ft.assume(at, Forall([]Bound{{"sk", SInt}}, Implies(inR(k), Eq(Select(after, SlcElemAddr(s, k)), Select(before, SlcElemAddr(s, Select(perm, k))))), []*Term{Select(after, SlcElemAddr(s, k))}))
 		// the same fact through the inverse permutation (carries the trigger for the other direction)
 		ft.assume(at, Forall([]Bound{{"sk", SInt}}, Implies(inR(k), Eq(Select(after, SlcElemAddr(s, Select(inv, k))), Select(before, SlcElemAddr(s, k)))), []*Term{Select(before, SlcElemAddr(s, k))}))
+		if ef := ft.h.elemsFrame(before, after, SlcArr(s)); ef != nil {
+			ft.assume(at, ef)
+		}
+		if elemsSupported(srt.V) {
+			// derived: a permutation keeps the element set
+			ft.assume(at, Eq(ft.h.elemsOf(after, s, srt.V), ft.h.elemsOf(before, s, srt.V)))
+		}
 		ft.h.setArr(st, an, after)
 		ft.h.noteHavoc(after, ft.h.nextID(st))
 	}
@@ -206,4 +213,40 @@ func (ft *FuncTr) onWriteElems(st *State, at *Term, name string, s *Term, pos to
 		}
 	}
 	ft.assert(at, Or(allowed...), "frame", name+"/elems", "writing the elements of a slice must be covered by the modifies clause or target a fresh array", pos)
+}
+
+// sortStrings models sort.Strings(x): x becomes a permutation of its former contents in non-decreasing order.
+func (ft *FuncTr) sortStrings(st *State, at *Term, in ssa.Instruction, c *ssa.CallCommon, args []Val) (Val, error) {
+	pos := in.Pos()
+	s := args[0].T
+	n := SlcLen(s)
+	es := SStr
+	an := memArrName(es)
+	srt := SArray(SPtr, es)
+	perm := ft.d.Fresh("sort_perm", SArray(SInt, SInt))
+	inv := ft.d.Fresh("sort_inv", SArray(SInt, SInt))
+	k := &Term{"sk", SInt}
+	inR := func(t *Term) *Term { return And(Le(IntLit(0), t), Lt(t, n)) }
+	ft.assume(at, Forall([]Bound{{"sk", SInt}}, Implies(inR(k), And(inR(Select(perm, k)), Eq(Select(inv, Select(perm, k)), k))), []*Term{Select(perm, k)}))
+	ft.assume(at, Forall([]Bound{{"sk", SInt}}, Implies(inR(k), And(inR(Select(inv, k)), Eq(Select(perm, Select(inv, k)), k))), []*Term{Select(inv, k)}))
+	before := ft.h.arr(st, an, srt)
+	after := ft.d.Fresh(an+"_sorted", srt)
+	ft.onWriteElems(st, at, an, s, pos)
+	am := &ArrMod{sort: srt, locs: []Loc{{LocElems, s}}}
+	ft.assume(at, frameCond(am, before, after, ft.h.nextID(st)))
+	ft.assume(at, Forall([]Bound{{"sk", SInt}}, Implies(inR(k), Eq(Select(after, SlcElemAddr(s, k)), Select(before, SlcElemAddr(s, Select(perm, k))))), []*Term{Select(after, SlcElemAddr(s, k))}))
+	ft.assume(at, Forall([]Bound{{"sk", SInt}}, Implies(inR(k), Eq(Select(after, SlcElemAddr(s, Select(inv, k))), Select(before, SlcElemAddr(s, k)))), []*Term{Select(before, SlcElemAddr(s, k))}))
+	if ef := ft.h.elemsFrame(before, after, SlcArr(s)); ef != nil {
+		ft.assume(at, ef)
+	}
+	ft.assume(at, Eq(ft.h.elemsOf(after, s, es), ft.h.elemsOf(before, s, es)))
+	ft.h.setArr(st, an, after)
+	ft.h.noteHavoc(after, ft.h.nextID(st))
+	a := &Term{"sa", SInt}
+	b := &Term{"sb", SInt}
+	ea := Select(after, SlcElemAddr(s, a))
+	eb := Select(after, SlcElemAddr(s, b))
+	ft.assume(at, Forall([]Bound{{"sa", SInt}, {"sb", SInt}}, Implies(And(Le(IntLit(0), a), Lt(a, b), Lt(b, n)), Not(mk(SBool, "str_lt", eb, ea))), []*Term{ea, eb}))
+	ft.w.assume("sort.Strings: afterwards the slice is a permutation of its former contents in non-decreasing order (assumed of the library)")
+	return Val{}, nil
 }
